@@ -60,6 +60,7 @@ type ReplayOutcome struct {
 	Expected  string `json:"expected,omitempty"`
 	Harness   string `json:"harness,omitempty"`
 	Note      string `json:"note,omitempty"`
+	Class     string `json:"class,omitempty"` // input class (compared with a known finding's input_class)
 }
 
 type Ctx struct {
@@ -81,6 +82,7 @@ type Ctx struct {
 	T0        time.Time
 	WriteBase bool
 	Propose   string
+	VerifyKnown bool // replay known findings too and compare their input class
 	mu        sync.Mutex
 }
 
@@ -271,7 +273,7 @@ func finish(c *Ctx, pd *propDef) int {
 		c.Baseline = base
 	}
 	total, discharged, generated := 0, 0, 0
-	var needReplay []*Item
+	var needReplay, knownItems []*Item
 	var knownHits, undecided, flaky, boundedOK []string
 	type viol struct {
 		it      *Item
@@ -307,6 +309,9 @@ func finish(c *Ctx, pd *propDef) int {
 		}
 		if kf := knownFor(c, it.Name); kf != nil && kf.Status != "fixed" {
 			knownHits = append(knownHits, it.Name)
+			if c.VerifyKnown {
+				knownItems = append(knownItems, it)
+			}
 			continue
 		}
 		switch {
@@ -323,8 +328,22 @@ func finish(c *Ctx, pd *propDef) int {
 		}
 	}
 	var outcomes map[string]*ReplayOutcome
-	if len(needReplay) > 0 && c.Replayer != nil {
-		outcomes = c.Replayer(c, needReplay)
+	if len(needReplay)+len(knownItems) > 0 && c.Replayer != nil {
+		outcomes = c.Replayer(c, append(append([]*Item{}, needReplay...), knownItems...))
+	}
+	// a listed finding whose failing input class changed is a different violation
+	for _, it := range knownItems {
+		kf := knownFor(c, it.Name)
+		oc := outcomes[it.Name]
+		if kf != nil && oc != nil && oc.Ran && oc.Failed && oc.Class != "" && oc.Class != kf.InputClass {
+			for i, k := range knownHits {
+				if k == it.Name {
+					knownHits = append(knownHits[:i], knownHits[i+1:]...)
+					break
+				}
+			}
+			viols = append(viols, viol{it, oc, "listed finding, but the failing input class changed from `" + kf.InputClass + "`"})
+		}
 	}
 	for _, it := range needReplay {
 		var oc *ReplayOutcome
@@ -353,7 +372,11 @@ func finish(c *Ctx, pd *propDef) int {
 		var props []Finding
 		for _, it := range und {
 			if o := oc[it.Name]; o != nil && o.Ran && o.Failed {
-				props = append(props, Finding{Property: c.Prop, Obligation: it.Name, InputClass: o.Input, What: o.Observed, Status: "open", Example: o.Input})
+				ic := o.Input
+				if o.Class != "" {
+					ic = o.Class
+				}
+				props = append(props, Finding{Property: c.Prop, Obligation: it.Name, InputClass: ic, What: o.Expected + "; observed: " + o.Input + " " + o.Observed, Status: "open", Example: o.Input})
 			}
 		}
 		b, _ := json.MarshalIndent(props, "", " ")
